@@ -564,6 +564,35 @@ func registerReflect(reg func(string, func(*Interp, []Value) Value)) {
 		return &RV{T: types.NewPointer(rv.T), V: rv.P, RO: rv.RO}
 	})
 	reg("(reflect.Value).IsNil", func(ip *Interp, a []Value) Value { return ip.rvIsNil(ip.asRV(a[0])) })
+	reg("(reflect.Value).IsZero", func(ip *Interp, a []Value) Value {
+		rv := ip.asRV(a[0])
+		if rv.T == nil {
+			ip.rtPanicV("reflect: call of reflect.Value.IsZero on zero Value")
+		}
+		return ip.isZeroValue(rv.T, ip.rvVal(rv))
+	})
+	reg("(reflect.Value).Pointer", func(ip *Interp, a []Value) Value {
+		rv := ip.asRV(a[0])
+		switch v := ip.rvVal(rv).(type) {
+		case *Map:
+			if v == nil {
+				return Const(SBV64, 0)
+			}
+			return Const(SBV64, uint64(0x10000+v.O.ID*16))
+		case Slice:
+			if v.A == nil {
+				return Const(SBV64, 0)
+			}
+			return Const(SBV64, uint64(0x10000+v.O.ID*16))
+		case Ptr:
+			if v.C == nil {
+				return Const(SBV64, 0)
+			}
+			return Const(SBV64, uint64(0x10000+v.O.ID*16))
+		}
+		ip.unsupported("reflect.Value.Pointer on %v", rv.T)
+		return nil
+	})
 	reg("(reflect.Value).MapIndex", func(ip *Interp, a []Value) Value {
 		rv, k := ip.asRV(a[0]), ip.asRV(a[1])
 		if rv.kind() != reflect.Map {
@@ -1046,4 +1075,56 @@ func registerReflect(reg func(string, func(*Interp, []Value) Value)) {
 		return MkStr("")
 	})
 	_ = fmt.Sprint
+}
+
+// isZeroValue returns a Bool term: v (of type t) is the zero value of its type.
+func (ip *Interp) isZeroValue(t types.Type, v Value) *Term {
+	tc := ip.TC
+	switch x := v.(type) {
+	case *Term:
+		if x.Sort == SBool {
+			return tc.Not(x)
+		}
+		if x.Sort.IsFP() {
+			// reflect: math.Float64bits(x) == 0 (so -0 is not zero)
+			if x.IsConst() {
+				return Bool(x.C == 0)
+			}
+			return tc.And(tc.FEq(x, fconst(x.Sort, 0)), tc.Not(tc.FLt(tc.FDiv(fconst(x.Sort, 1), x), fconst(x.Sort, 0))))
+		}
+		return tc.Eq(x, Const(x.Sort, 0))
+	case Str:
+		return Bool(x.Len() == 0)
+	case Ptr:
+		return Bool(x.C == nil)
+	case Slice:
+		return Bool(x.A == nil)
+	case *Map:
+		return Bool(x == nil)
+	case Iface:
+		return Bool(x.T == nil)
+	case *Closure:
+		return Bool(x == nil)
+	case Struct:
+		r := tTrue
+		st, _ := t.Underlying().(*types.Struct)
+		for i, f := range x {
+			var ft types.Type
+			if st != nil {
+				ft = st.Field(i).Type()
+			}
+			r = tc.And(r, ip.isZeroValue(ft, f))
+		}
+		return r
+	case Array:
+		r := tTrue
+		for _, f := range x {
+			r = tc.And(r, ip.isZeroValue(nil, f))
+		}
+		return r
+	case *RV:
+		return Bool(x.T == nil)
+	}
+	ip.unsupported("IsZero on %T", v)
+	return nil
 }
